@@ -45,12 +45,13 @@ type Scenario struct {
 	Storm     bool     `json:"storm"`            // many quick cycles of coinciding causes (no settle time between them)
 	Calls     string   `json:"calls"`            // what the handlers call while the disconnect is in progress: "" | me | connected
 	FailFirst string   `json:"fail_first"`       // "" | dial | tls: a Connect that fails (dial error, TLS handshake failure) precedes the session
+	BgDisc    bool     `json:"bg_disc"`          // a background DISCONNECTED handler that keeps running until the scenario is over
 	DiscClose bool     `json:"disc_close"`       // the DISCONNECTED handler calls Close(): the client is not connected, it must do nothing (and return)
 }
 
 func (s Scenario) Key() string {
 	return fmt.Sprintf("in=%s out=%s/%s handler=%s causes=%s flood=%v reconnect=%s up=%v calls=%s",
-		backlogClass(s.In), backlogClass(s.Out), s.OutBy, s.Handler, strings.Join(s.Causes, "+"), s.Flood, s.Reconnect, s.ConnectUp, s.Calls) + map[bool]string{true: " storm", false: ""}[s.Storm] + map[bool]string{true: " disc-close", false: ""}[s.DiscClose] + map[bool]string{true: " after-failed-" + s.FailFirst, false: ""}[s.FailFirst != ""]
+		backlogClass(s.In), backlogClass(s.Out), s.OutBy, s.Handler, strings.Join(s.Causes, "+"), s.Flood, s.Reconnect, s.ConnectUp, s.Calls) + map[bool]string{true: " storm", false: ""}[s.Storm] + map[bool]string{true: " disc-close", false: ""}[s.DiscClose] + map[bool]string{true: " lingering-bg-DISCONNECTED", false: ""}[s.BgDisc] + map[bool]string{true: " after-failed-" + s.FailFirst, false: ""}[s.FailFirst != ""]
 }
 
 var qcap = 32
@@ -142,28 +143,32 @@ func shortStacks(gs []string) string {
 }
 
 type runner struct {
-	sc       Scenario
-	res      *Result
-	s        *sess.Session
-	mu       sync.Mutex
-	reg      int32
-	con      int32
-	disc     int32
-	discCh   chan struct{}
-	samples  []string
-	held     chan struct{}
-	release  chan struct{}
-	fill     int32
-	stopped  int32 // set when DISCONNECTED was seen: user senders stop
-	useq     int32 // ids of user lines, unique over the whole scenario
-	umu      sync.Mutex
-	returned []int        // ids of user lines whose Raw call has returned
-	stale    map[int]bool // ids whose call had returned when a DISCONNECTED handler started: accepted by an earlier connection
-	ctx      context.Context
-	cancel   context.CancelFunc
-	cycle    int
-	recon    chan error
-	deadline time.Duration
+	sc        Scenario
+	res       *Result
+	s         *sess.Session
+	mu        sync.Mutex
+	reg       int32
+	con       int32
+	disc      int32
+	discCh    chan struct{}
+	samples   []string
+	held      chan struct{}
+	release   chan struct{}
+	fill      int32
+	stopped   int32              // set when DISCONNECTED was seen: user senders stop
+	bgRets    chan time.Duration // Close calls made by the background handler of the "bgclose" cause
+	bgStarted int32              // ... that have begun (a coinciding cause may discard the triggering line)
+	bgDone    int32
+	over      chan struct{} // closed when the scenario is over (lingering background handlers leave)
+	useq      int32         // ids of user lines, unique over the whole scenario
+	umu       sync.Mutex
+	returned  []int        // ids of user lines whose Raw call has returned
+	stale     map[int]bool // ids whose call had returned when a DISCONNECTED handler started: accepted by an earlier connection
+	ctx       context.Context
+	cancel    context.CancelFunc
+	cycle     int
+	recon     chan error
+	deadline  time.Duration
 }
 
 // apiCalls: what a running handler may call on the client while a disconnect
@@ -271,7 +276,8 @@ func contains(l []string, x string) bool {
 func Run(sc Scenario, seed int64) *Result {
 	res := &Result{Scenario: sc}
 	rng := rand.New(rand.NewSource(seed))
-	r := &runner{sc: sc, res: res, discCh: make(chan struct{}, 16), recon: make(chan error, 4)}
+	r := &runner{sc: sc, res: res, discCh: make(chan struct{}, 16), recon: make(chan error, 4), bgRets: make(chan time.Duration, 8), over: make(chan struct{})}
+	defer close(r.over)
 	r.deadline = 5 * time.Second
 	if sc.Flood {
 		r.deadline = 25 * time.Second
@@ -334,6 +340,16 @@ func Run(sc Scenario, seed int64) *Result {
 		}
 		r.discCh <- struct{}{}
 	})
+	// Close from a background handler is inside C07's claim (only foreground and internal handlers wait for themselves)
+	c.HandleBG("BGCLOSE", client.HandlerFunc(func(c *client.Conn, l *client.Line) {
+		atomic.AddInt32(&r.bgStarted, 1)
+		t := time.Now()
+		c.Close()
+		r.bgRets <- time.Since(t)
+	}))
+	if sc.BgDisc {
+		c.HandleBG(client.DISCONNECTED, client.HandlerFunc(func(c *client.Conn, l *client.Line) { <-r.over }))
+	}
 	c.HandleFunc("HOLD", func(c *client.Conn, l *client.Line) {
 		held, release := r.held, r.release
 		close(held)
@@ -562,6 +578,7 @@ func (r *runner) oneGeneration(rng *rand.Rand) bool {
 			nclose += 3
 		}
 	}
+	nbg := 0
 	rets := make(chan closeRet, 8)
 	for i := 0; i < nclose; i++ {
 		go func() {
@@ -586,8 +603,12 @@ func (r *runner) oneGeneration(rng *rand.Rand) bool {
 			go func() { defer func() { recover() }(); s.C.Raw("PING :provoke") }()
 		case "cancel":
 			r.cancel()
+		case "bgclose":
+			nbg++
+			srv.SendLines("BGCLOSE")
 		}
 	}
+	_ = nbg
 	if sc.Handler == "running" || sc.Handler == "sending" {
 		time.Sleep(time.Duration(1+rng.Intn(4)) * time.Millisecond)
 		rel()
@@ -595,11 +616,16 @@ func (r *runner) oneGeneration(rng *rand.Rand) bool {
 	// (1) every Close returns, (2) DISCONNECTED is delivered - within the deadline
 	timeout := time.After(r.deadline)
 	gotDisc := false
-	for got := 0; got < nclose || !gotDisc; {
+	for got := 0; got < nclose || !gotDisc || atomic.LoadInt32(&r.bgDone) < atomic.LoadInt32(&r.bgStarted); {
 		select {
 		case cr := <-rets:
 			got++
 			if ms := float64(cr.d) / 1e6; ms > r.res.CloseMs {
+				r.res.CloseMs = ms
+			}
+		case d := <-r.bgRets:
+			atomic.AddInt32(&r.bgDone, 1)
+			if ms := float64(d) / 1e6; ms > r.res.CloseMs {
 				r.res.CloseMs = ms
 			}
 		case <-r.discCh:
@@ -764,6 +790,12 @@ func Families(tier string, rng *rand.Rand) []Scenario {
 	}
 	add(Scenario{Causes: []string{"eof"}, DiscClose: true, Reconnect: "handler", Cycles: 2})
 	add(Scenario{Causes: []string{"close"}, DiscClose: true, Reconnect: "other", Cycles: 2})
+	// Close called by a background handler; a background DISCONNECTED handler of an earlier connection still running
+	add(Scenario{Causes: []string{"bgclose"}, In: 3})
+	add(Scenario{Causes: []string{"bgclose", "eof"}, Out: cap + 5, OutBy: "handler", Handler: "sending"})
+	add(Scenario{Causes: []string{"bgclose"}, Reconnect: "other", Cycles: 2})
+	add(Scenario{Causes: []string{"close"}, BgDisc: true, Reconnect: "other", Cycles: 2})
+	add(Scenario{Causes: []string{"eof"}, BgDisc: true, Reconnect: "handler", Cycles: 3, In: 5})
 	// a Connect that fails (refused dial, failed TLS handshake) before the session proper
 	for _, ff := range []string{"dial", "tls"} {
 		add(Scenario{Causes: []string{"close"}, In: 3, FailFirst: ff})
@@ -868,7 +900,7 @@ func RunLife(args []string) int {
 		// ConnTrace.tla follows user senders within one connection; a user goroutine that keeps
 		// sending across a reconnect, and a Close issued from inside the DISCONNECTED handler, are
 		// checked by the scenario's own oracle only
-		traced := tr != nil && !(sc.OutBy == "user" && sc.Reconnect != "none" && sc.Reconnect != "") && !sc.DiscClose && sc.FailFirst == ""
+		traced := tr != nil && !(sc.OutBy == "user" && sc.Reconnect != "none" && sc.Reconnect != "") && !sc.DiscClose && sc.FailFirst == "" && !contains(sc.Causes, "bgclose") && !sc.BgDisc
 		if traced {
 			tr.Reset(qcap, sc.Ping)
 		}
